@@ -212,3 +212,14 @@ Fixpoint hset (h : heap) (l : loc) (c : hcell) : heap :=
   | [] => []
   | (k, c0) :: r => if Z.eqb k l then (k, c) :: r else (k, c0) :: hset r l c
   end.
+
+(* ---- programs that only allocate, and store only into what they allocated ---------------------- *)
+(* the shape of every query and value-returning operation: whatever it sorts, fills or appends to is a
+   location it allocated itself (a copied slice, a fresh message, a new map) *)
+Inductive hop := OAlloc (c : hcell) | OStore (l : loc) (c : hcell).
+
+Definition hstep (h : heap) (o : hop) : heap :=
+  match o with OAlloc c => snd (alloc h c) | OStore l c => hset h l c end.
+
+Definition fresh_only (n0 : Z) (ops : list hop) : bool :=
+  forallb (fun o => match o with OAlloc _ => true | OStore l _ => Z.leb n0 l end) ops.
